@@ -163,6 +163,12 @@ func (p *Packet) decodeIPv4Header() error {
 		return errShortIPv4HeaderLength
 	}
 
+	// the header length field counts 32-bit words and covers the options
+	hLen := int(p.data[0]&0x0f) * 4
+	if hLen < IPv4HLen || len(p.data) < hLen {
+		return errShortIPv4HeaderLength
+	}
+
 	var (
 		src net.IP = p.data[12:16]
 		dst net.IP = p.data[16:20]
@@ -173,7 +179,8 @@ func (p *Packet) decodeIPv4Header() error {
 		TOS:      int(p.data[1]),
 		TotalLen: int(p.data[2])<<8 | int(p.data[3]),
 		ID:       int(p.data[4])<<8 | int(p.data[5]),
-		Flags:    int(p.data[6] & 0x07),
+		Flags:    int(p.data[6] >> 5),
+		FragOff:  int(p.data[6]&0x1f)<<8 | int(p.data[7]),
 		TTL:      int(p.data[8]),
 		Protocol: int(p.data[9]),
 		Checksum: int(p.data[10])<<8 | int(p.data[11]),
@@ -181,7 +188,7 @@ func (p *Packet) decodeIPv4Header() error {
 		Dst:      dst.String(),
 	}
 
-	p.data = p.data[IPv4HLen:]
+	p.data = p.data[hLen:]
 
 	return nil
 }
